@@ -212,7 +212,7 @@ def check_spellings(G, item, verdict, stats):
     if pathedit.has_wild(segs):
         return viols
     variants = []
-    if all(isinstance(a, str) and '.' not in a and a != '' for _, a in segs):
+    if all(isinstance(a, str) and '.' not in a and a not in ('', '*', '**') for _, a in segs):
         variants.append(('str', [['P', a] for _, a in segs]))
     variants.append(('Path', [['P', a] for _, a in segs]))
     variants.append(('T', [['[', a] for _, a in segs]))
